@@ -1,7 +1,7 @@
 //! The end-to-end properties (C01, C02, C06, C07, C08, C13, C15): valid scenarios plus injected
 //! faults with constructed ground truth ("this fault necessarily makes verification fail").
 use crate::e2e::*;
-use crate::meta::{key_pool, KeyInfo};
+use crate::meta::{key_pool_twins, KeyInfo};
 use crate::proto::Sink;
 use crate::rng::Rng;
 use crate::Cfg;
@@ -50,12 +50,12 @@ fn other_key(pool: &[KeyInfo], r: &mut Rng, avoid: &[usize]) -> usize {
 pub(crate) fn inject(prop: &str, s: &mut Scenario, r: &mut Rng, pool: &[KeyInfo]) -> Option<Fault> {
     let kinds: &[&str] = match prop {
         "C01" => &["caller_empty", "caller_superset", "caller_disjoint", "caller_alias", "owner_sig_missing", "owner_sig_corrupt", "owner_sig_mislabel", "owner_sig_duplicated", "owner_sig_duplicated_apart", "layout_tampered", "layout_command_resplit", "not_a_layout", "extra_sig", "none"],
-        "C06" => &["expired_1s", "expired_long", "expired_centuries", "expires_now", "expires_plus1", "expires_far_future", "offset_notation", "offset_expired", "sub_expired", "none"],
-        "C02" => &["link_removed", "link_wrong_signer", "link_mislabel", "link_tampered", "link_corrupt", "link_unauthorized", "key_not_in_table", "link_garbage", "link_misfiled", "link_cosigned_forgery", "cosigned_next_to_differing", "threshold_zero_nolinks", "threshold_zero_norules", "threshold_zero_norules", "threshold_zero_onelink", "threshold_raised", "link_wrong_type", "none"],
+        "C06" => &["expired_1s", "expired_long", "expired_centuries", "expires_now", "expires_plus1", "expires_far_future", "offset_notation", "offset_expired", "sub_expired", "sub_expired_surplus", "sub_expired_surplus", "none"],
+        "C02" => &["link_removed", "link_wrong_signer", "link_mislabel", "link_tampered", "link_corrupt", "link_unauthorized", "key_not_in_table", "link_garbage", "link_misfiled", "link_cosigned_forgery", "cosigned_next_to_differing", "threshold_zero_nolinks", "threshold_zero_norules", "threshold_zero_norules", "threshold_zero_onelink", "threshold_raised", "link_wrong_type", "ghost_authorized_prefix", "ghost_authorized_prefix", "twin_unauthorized", "twin_unauthorized", "none"],
         "C07" => &["disagree_product_digest", "disagree_material_path", "disagree_extra_entry", "disagree_t1", "agree_extra_differs", "cosigned_next_to_differing", "disagree_path_spelling", "disagree_alias_entry", "disagree_algorithm_set", "none"],
         "C13" => &["differing_links_t1", "differing_links_t1_rules", "none", "link_removed", "disagree_product_digest", "disagree_extra_entry", "cosigned_next_to_differing", "cosigned_next_to_differing", "digest_partial_agreement", "digest_partial_agreement"],
-        "C08" => &["insp_exit", "insp_notfound", "insp_rule", "insp_rule_named_like_step", "pre_expired", "pre_badsig", "pre_link_removed", "pre_rule", "pre_disagree", "none"],
-        "C15" => &["no_steps", "no_steps_inner", "sub_wrong_signer", "sub_expired", "sub_missing_link", "sub_links_in_parent", "sub_rule", "sub_unauthorized_inner", "sub_tampered", "sub_insp_exit", "sub_insp_rule", "sub_dir_misnamed", "sub_dir_misnamed", "sub_misfiled", "sub_misfiled", "none"],
+        "C08" => &["insp_exit", "insp_notfound", "insp_rule", "insp_rule_named_like_step", "pre_expired", "pre_badsig", "pre_link_removed", "pre_rule", "pre_disagree", "sub_expired", "sub_expired_surplus", "sub_tampered", "none"],
+        "C15" => &["no_steps", "no_steps_inner", "sub_wrong_signer", "sub_expired", "sub_missing_link", "sub_links_in_parent", "sub_rule", "sub_unauthorized_inner", "sub_tampered", "sub_insp_exit", "sub_insp_rule", "sub_dir_misnamed", "sub_dir_misnamed", "sub_misfiled", "sub_misfiled", "sub_rule_surplus", "sub_missing_link_surplus", "sub_expired_surplus", "sub_insp_exit_surplus", "none"],
         _ => &["none"],
     };
     let kind = *r.pick(kinds);
@@ -146,7 +146,7 @@ pub(crate) fn inject_kind(prop: &str, kind: &str, s: &mut Scenario, r: &mut Rng,
             Some(("C01", "the layout was changed after it was signed".into(), true))
         }
         "not_a_layout" => {
-            s.block.meta = SMeta::Link(SLink { name: "x".into(), mats: vec![], prods: vec![], stdout: String::new(), command: vec![] });
+            s.block.meta = SMeta::Link(SLink { name: "x".into(), mats: vec![], prods: vec![], stdout: String::new(), command: vec![], env: None });
             Some(("C01", "the signed block is a link, not a layout".into(), true))
         }
         "extra_sig" => {
@@ -199,7 +199,7 @@ pub(crate) fn inject_kind(prop: &str, kind: &str, s: &mut Scenario, r: &mut Rng,
             }
         }
         // ---------------------------------------------------------------- C02
-        "link_removed" | "link_wrong_signer" | "link_mislabel" | "link_tampered" | "link_corrupt" | "link_unauthorized" | "key_not_in_table" | "link_garbage" | "link_misfiled" | "link_wrong_type" | "pre_link_removed" => {
+        "link_removed" | "link_wrong_signer" | "link_mislabel" | "link_tampered" | "link_corrupt" | "link_unauthorized" | "key_not_in_table" | "link_garbage" | "link_misfiled" | "link_wrong_type" | "pre_link_removed" | "ghost_authorized_prefix" | "twin_unauthorized" => {
             let l = layout_mut(&mut s.block)?.clone();
             let si = r.below(l.steps.len());
             trim_spares(&l, &mut s.dir, si);
@@ -256,6 +256,46 @@ pub(crate) fn inject_kind(prop: &str, kind: &str, s: &mut Scenario, r: &mut Rng,
                     let lm = layout_mut(&mut s.block)?;
                     lm.keys.retain(|&k| k != owner);
                     desc = "the signer is listed for the step but not defined in the layout's key table";
+                }
+                "ghost_authorized_prefix" | "twin_unauthorized" => {
+                    // the only evidence is validly signed by a key X that the layout defines but does not
+                    // authorize for this step, while the step authorizes a key id that merely *starts* like
+                    // X's (link files are named after the first eight digits only): either an id no key
+                    // has ("ghost"), or the id of X's twin, which delivers nothing
+                    if !is_link {
+                        return None;
+                    }
+                    let x = if kind == "twin_unauthorized" {
+                        (0..pool.len()).find(|&k| prefix8(pool, k) == prefix8(pool, owner) && kid(pool, k) != kid(pool, owner))?
+                    } else {
+                        match l.keys.iter().cloned().find(|k| !l.steps[si].pubkeys.contains(k)) {
+                            Some(k) => k,
+                            None => other_key(pool, r, &l.steps[si].pubkeys),
+                        }
+                    };
+                    if l.steps[si].pubkeys.iter().any(|&k| kid(pool, k) == kid(pool, x)) {
+                        return None;
+                    }
+                    let fname_x = format!("{}.{}.link", l.steps[si].name, prefix8(pool, x));
+                    if kind != "twin_unauthorized" && s.dir.files.iter().any(|f| f.0 == fname_x) {
+                        return None;
+                    }
+                    if let SFile::Block(b) = &mut s.dir.files[fi].1 {
+                        b.sigs = vec![SSig { label: x, signer: x, corrupt: false }];
+                    }
+                    s.dir.files[fi].0 = fname_x;
+                    let lm = layout_mut(&mut s.block)?;
+                    if !lm.keys.contains(&x) {
+                        lm.keys.push(x);
+                    }
+                    if kind == "ghost_authorized_prefix" {
+                        let full = kid(pool, x);
+                        let tail: String = full[8..].chars().map(|c| if c == 'f' { '0' } else { 'f' }).collect();
+                        lm.steps[si].ghost_keys.push(format!("{}{}", &full[..8], tail));
+                        desc = "the only evidence is signed by a key not authorized for this step; the step authorizes an id with the same first eight digits that no key has";
+                    } else {
+                        desc = "the only evidence is signed by a key not authorized for this step whose id starts like an authorized key's";
+                    }
                 }
                 _ => {
                     if !is_link {
@@ -650,7 +690,18 @@ pub(crate) fn inject_kind(prop: &str, kind: &str, s: &mut Scenario, r: &mut Rng,
             let (si, fi) = l.steps.iter().enumerate().find_map(|(si, st)| {
                 evidence_files(&s.dir, &st.name).into_iter().find(|&fi| matches!(&s.dir.files[fi].1, SFile::Block(b) if matches!(b.meta, SMeta::Layout(_)))).map(|fi| (si, fi))
             })?;
-            trim_spares(&l, &mut s.dir, si);
+            // `_surplus`: the step keeps its other evidence, which alone would meet the threshold - a
+            // sub-layout that is reached and does not verify must still be fatal
+            let surplus = k.ends_with("_surplus");
+            let k = k.trim_end_matches("_surplus");
+            if surplus {
+                let need = (l.steps[si].threshold as usize).max(1);
+                if evidence_files(&s.dir, &l.steps[si].name).len() <= need {
+                    return None;
+                }
+            } else {
+                trim_spares(&l, &mut s.dir, si);
+            }
             let cands: Vec<usize> = evidence_files(&s.dir, &l.steps[si].name).into_iter().filter(|&f| matches!(&s.dir.files[f].1, SFile::Block(b) if matches!(b.meta, SMeta::Layout(_)))).collect();
             let fi = if cands.is_empty() { fi } else { cands[r.below(cands.len())] };
             let fname = s.dir.files[fi].0.clone();
@@ -788,7 +839,8 @@ pub(crate) fn inject_kind(prop: &str, kind: &str, s: &mut Scenario, r: &mut Rng,
             if let Some(nn) = rename_to {
                 s.dir.files[fi].0 = nn;
             }
-            Some((if k == "sub_expired" && prop == "C06" { "C06" } else { "C15" }, format!("{} (step {})", desc, l.steps[si].name), true))
+            let label = if k == "sub_expired" && prop == "C06" { "C06" } else if prop == "C08" { "C08" } else { "C15" };
+            Some((label, format!("{}{} (step {})", desc, if surplus { ", next to other evidence that meets the threshold" } else { "" }, l.steps[si].name), true))
         }
         _ => None,
     }
@@ -797,7 +849,7 @@ pub(crate) fn inject_kind(prop: &str, kind: &str, s: &mut Scenario, r: &mut Rng,
 pub fn run(cfg: &Cfg, prop: &str) {
     let mut sink = Sink::new(&cfg.out);
     let mut r = Rng::new(cfg.seed ^ (prop.bytes().fold(0u64, |a, b| a * 131 + b as u64)));
-    let pool = key_pool(2);
+    let pool = key_pool_twins(2);
     let n = match (prop, cfg.thorough) {
         (_, true) => 6000,
         (_, false) => 500,
@@ -860,6 +912,9 @@ pub fn run(cfg: &Cfg, prop: &str) {
             if pre {
                 sink.oracle(out.events.iter().all(|e| !e.starts_with('|')), "an inspection of the layout ran although verification failed before the inspection stage", &replay);
             }
+        }
+        if out.ok {
+            sink.oracle(out.summary_extra.is_none(), &format!("the summary link carries more than the first step's materials and the last step's products, command and byproducts: {}", out.summary_extra.clone().unwrap_or_default()), &replay);
         }
         if prop == "C15" && out.ok {
             let want = s.name.as_ref().map(|n| crate::proto::hexs(n)).unwrap_or_else(|| "-".into());
